@@ -13,8 +13,20 @@ def load_unit(name, repo=None, probe=False):
     spec = importlib.util.spec_from_file_location(name, p)
     m = importlib.util.module_from_spec(spec)
     spec.loader.exec_module(m)
-    u = kv.Unit(name, repo=repo, probe=probe)
-    m.build(u)
+    import weave
+    weave.HINTS_OFF.clear()
+    for _attempt in range(12):
+        u = kv.Unit(name, repo=repo, probe=probe)
+        try:
+            m.build(u)
+            break
+        except weave.HintLost as e:
+            # rebuild with the proof hints of that function switched off (see weave.HintLost)
+            weave.HINTS_OFF[e.fn] = e.msg
+    else:
+        raise kv.Undecided('proof hints lost in too many functions: %s' % sorted(weave.HINTS_OFF))
+    u.hints_off = dict(weave.HINTS_OFF)
+    weave.HINTS_OFF.clear()
     u.serves = m.SERVES
     u.verus_flags = getattr(m, 'VERUS_FLAGS', [])
     return u
